@@ -12,10 +12,10 @@ import (
 
 func init() {
 	register(&core.Property{
-		ID:    "C05",
-		Title: "Files on disk hold exactly the current model; no stale or missing content",
+		ID:          "C05",
+		Title:       "Files on disk hold exactly the current model; no stale or missing content",
 		Explanation: "Static decision of the dirty-bit discipline that selects what is rewritten: (1) for every model container with the items/itemsAdd/itemsDel triple (discovered by type shape), every insertion into items is paired with the same key in itemsAdd and every deletion with itemsDel, in the same block; flag-style containers set `changed` on the branch that mutates; (2) every write into a backend shard map flags that shard; (3) Backends.Clear carries the non-empty shards of the OLD state as flags on the NEW object, reads the old state before overwriting it, and hands the previous items over as itemsDel; (4) Shrink, after clearing the shard flags, re-flags from both itemsAdd and itemsDel; (5) the three map writers skip exactly when their container reports no change; (6) the shard loop of writeConfig writes file j with content j for every changed shard and the main file always; (7) the change sets are cleared only by Commit (and by Shrink on a match).",
-		NotDecided: []string{"byte content of the files over histories (the rendered output is not computed)"},
+		NotDecided:  []string{"byte content of the files over histories (the rendered output is not computed)"},
 		Rules: []*core.Rule{
 			{ID: "C05.dirty-bit", Floor: 10, Run: c05DirtyBit,
 				Doc: "items[k] = v is accompanied by itemsAdd[k] = v, delete(items, k) by itemsDel[k] = old, in the same basic block (Shrink's restore is checked by C11). TCPServices/Frontend: stores that mutate set `changed = true` on the same branch."},
@@ -351,8 +351,20 @@ func c05ShrinkRecompute(c *core.Ctx) {
 	for _, st := range fieldStores(fn, false, "haproxy/types.Backends", "changedShards") {
 		reset = st
 	}
+	// un-flagging a single shard is never right: another backend of that shard may still be changed
+	for _, f := range c.SrcFuncs() {
+		if core.PkgOf(f) != "haproxy/types" {
+			continue
+		}
+		for _, op := range mapOpsOn(f, "haproxy/types.Backends") {
+			if op.field == "changedShards" && !op.insert {
+				c.Violated(core.FuncName(f)+" un-flags a shard", at(c, op.in), "a shard flag is deleted individually: a backend of the same shard that did change (or was updated through the socket) does not get its shard file rewritten")
+			}
+		}
+	}
 	if reset == nil {
 		c.Held("Shrink does not reset the shard flags", c.Pos(fn.Pos()), "flags are only added")
+		c.Held("Shrink never un-flags", c.Pos(fn.Pos()), "")
 		return
 	}
 	for _, fld := range []string{"itemsAdd", "itemsDel"} {
